@@ -259,6 +259,7 @@ func genCases(f fnSpec, thorough bool, r *rand.Rand) []Case {
 			}
 		}
 	}
+	cs = append(cs, scenarioCases(f, thorough)...)
 	// fd_renumber allocation probes (moderately large keys + the 2^31-1 case; guarded child only)
 	if f.name == "fd_renumber" {
 		for _, st := range []string{"dir", "hole"} {
@@ -337,6 +338,214 @@ func genCases(f fnSpec, thorough bool, r *rand.Rand) []Case {
 			e = "compiler"
 		}
 		add(a, states[r.Intn(3)], imgFor(r.Intn(6), r), e, "random")
+	}
+	return cs
+}
+
+// scenarioCases: tuples that reach the successful paths of the file-system and socket functions (an existing file, the
+// symbolic link, the sub-directory, a pending connection, a directory stream that has been read before), combined
+// with result pointers / buffer lengths at the edges of the memory.
+func scenarioCases(f fnSpec, thorough bool) []Case {
+	var cs []Case
+	idx := map[string]int{}
+	for i, p := range f.params {
+		idx[p.name] = i
+	}
+	base := func(fd uint64) []uint64 {
+		a := make([]uint64, len(f.params))
+		for i, p := range f.params {
+			a[i] = p.base
+		}
+		for _, i := range f.fdParams() {
+			a[i] = fd
+		}
+		return a
+	}
+	add := func(a []uint64, state string, k int) {
+		cs = append(cs, Case{Fn: f.name, Args: a, State: state, Img: "struct", Engine: []string{"interpreter", "compiler"}[k%2], Tag: "scenario"})
+	}
+	k := 0
+	edge := []uint64{16384, S - 64, S - 8, S - 5, S - 4, S - 3, S - 1, S, 1<<32 - 4}
+	switch {
+	case strings.HasPrefix(f.name, "path_") && f.name != "path_rename" && f.name != "path_link" && f.name != "path_symlink":
+		pi, li := idx["path"], idx["path_len"]
+		for _, st := range []string{"dir", "hole"} {
+			for _, fd := range []uint64{3, 5, 4} {
+				if st == "hole" && fd == 5 {
+					continue
+				}
+				for _, pt := range pathTable {
+					for _, dl := range []int{0, -1, 1} {
+						a := base(fd)
+						a[pi], a[li] = uint64(pt.off), uint64(len(pt.s)+dl)
+						k++
+						add(clone(a), st, k)
+						switch f.name {
+						case "path_open":
+							for _, of := range []uint64{1, 2, 3, 4, 5, 8, 9, 0xffff} {
+								b := clone(a)
+								b[idx["oflags"]] = of
+								k++
+								add(b, st, k)
+							}
+							if dl == 0 {
+								for _, r := range edge {
+									b := clone(a)
+									b[idx["result.opened_fd"]] = r
+									k++
+									add(b, st, k)
+								}
+								for _, fl := range []uint64{1, 4, 0xffff} {
+									b := clone(a)
+									b[idx["dirflags"]], b[idx["fdflags"]] = 1, fl
+									b[idx["fs_rights_base"]] = 0x42
+									k++
+									add(b, st, k)
+								}
+							}
+						case "path_filestat_get":
+							for _, r := range edge {
+								for _, fl := range []uint64{0, 1} {
+									b := clone(a)
+									b[idx["result.filestat"]], b[idx["flags"]] = r, fl
+									k++
+									add(b, st, k)
+								}
+							}
+						case "path_readlink":
+							for _, bl := range []uint64{1, 4, 5, 6, 256, S, 1<<32 - 1} {
+								for _, bp := range []uint64{8192, S - 6, S - 5, S - 4, S - 1, S} {
+									b := clone(a)
+									b[idx["buf"]], b[idx["buf_len"]] = bp, bl
+									k++
+									add(b, st, k)
+								}
+							}
+							if dl == 0 {
+								for _, r := range edge {
+									b := clone(a)
+									b[idx["result.bufused"]] = r
+									k++
+									add(b, st, k)
+								}
+							}
+						case "path_filestat_set_times":
+							for _, fl := range []uint64{0, 1} {
+								for _, fst := range []uint64{0, 1, 2, 4, 8, 5, 10, 3, 12} {
+									b := clone(a)
+									b[idx["flags"]], b[idx["fst_flags"]] = fl, fst
+									k++
+									add(b, st, k)
+								}
+							}
+						}
+					}
+				}
+			}
+		}
+	case f.name == "path_rename" || f.name == "path_link" || f.name == "path_symlink":
+		oi, ol, ni, nl := idx["old_path"], idx["old_path_len"], idx["new_path"], idx["new_path_len"]
+		for _, fd := range []uint64{3, 5} {
+			for _, po := range pathTable {
+				for _, pn := range pathTable {
+					a := base(fd)
+					a[oi], a[ol], a[ni], a[nl] = uint64(po.off), uint64(len(po.s)), uint64(pn.off), uint64(len(pn.s))
+					k++
+					add(a, "dir", k)
+				}
+			}
+		}
+	case f.name == "fd_readdir":
+		// a directory stream that has been read to its end before (state dirread): cookies inside, at and beyond the
+		// stream; buffer lengths around every entry boundary of both listings
+		lens := []uint64{0, 23, 24, 25, 26, 48, 49, 50, 51, 52, 74, 75, 76, 77, 80, 98, 99, 100, 101, 104, 105, 106, 128, 129, 130, 131, 132, 133, 134, 256, S, 1 << 28, 1<<32 - 1}
+		for _, st := range []string{"dirread", "dir"} {
+			for _, fd := range []uint64{3, 5, 4} {
+				for _, ck := range []uint64{0, 1, 2, 3, 4, 5, 6, 7, 1 << 32, 1 << 63, 1<<64 - 1} {
+					for _, l := range lens {
+						if !thorough && st == "dir" && ck > 1 && l != 256 {
+							continue
+						}
+						a := base(fd)
+						a[idx["cookie"]], a[idx["buf_len"]] = ck, l
+						k++
+						add(clone(a), st, k)
+						if l == 133 || l == 76 || l == 256 {
+							for _, bp := range []uint64{S - 134, S - 133, S - 132, S - 76, S - 75, S - 24, S - 1, S} {
+								b := clone(a)
+								b[idx["buf"]] = bp
+								k++
+								add(b, st, k)
+							}
+							for _, r := range edge {
+								b := clone(a)
+								b[idx["result.bufused"]] = r
+								k++
+								add(b, st, k)
+							}
+						}
+					}
+				}
+			}
+		}
+	case f.name == "fd_read" || f.name == "fd_pread":
+		// an iovec buffer that covers a later entry of the same iovec array, filled from a file whose bytes are an iovec
+		for _, st := range []string{"alias", "dir"} {
+			for _, fd := range []uint64{6, 4, 0} {
+				for _, n := range []uint64{1, 2, 3} {
+					for _, p := range []uint64{offIovC, offIovB} {
+						a := base(fd)
+						a[idx["iovs"]], a[idx["iovs_len"]] = p, n
+						k++
+						add(a, st, k)
+					}
+				}
+			}
+		}
+	case f.name == "sock_accept" && sockStateOK:
+		// a connection is pending on the listener (state sockp)
+		for _, fd := range []uint64{3, 4, 0, 5} {
+			for _, fl := range []uint64{0, 4, 0xffff} {
+				for _, r := range append([]uint64{64}, edge...) {
+					a := base(fd)
+					a[idx["flags"]], a[idx["result.fd"]] = fl, r
+					k++
+					add(a, "sockp", k)
+				}
+			}
+		}
+	case (f.name == "sock_recv" || f.name == "sock_send") && sockStateOK:
+		fl := "ri_flags"
+		ln, dp := "ri_data_len", "ri_data"
+		if f.name == "sock_send" {
+			fl, ln, dp = "si_flags", "si_data_len", "si_data"
+		}
+		for _, fd := range []uint64{4, 3} {
+			for _, flag := range []uint64{0, 1, 2, 3, 4, 0x101} {
+				for _, n := range []uint64{0, 1, 2, 3, 4, 5, 8, 1 << 29, 1<<29 + 1} {
+					for _, p := range []uint64{offIovA, 8, 24, offIovB, S - 8, S - 4, 1<<32 - 4} {
+						a := base(fd)
+						a[idx[fl]], a[idx[ln]], a[idx[dp]] = flag, n, p
+						k++
+						add(clone(a), "sock", k)
+						if p == offIovA && n <= 2 {
+							for _, r := range edge {
+								b := clone(a)
+								b[len(b)-1] = r
+								k++
+								add(b, "sock", k)
+								if f.name == "sock_recv" {
+									c := clone(a)
+									c[idx["result.ro_datalen"]] = r
+									k++
+									add(c, "sock", k)
+								}
+							}
+						}
+					}
+				}
+			}
+		}
 	}
 	return cs
 }
